@@ -220,7 +220,7 @@ Definition pq_query (p : path_query) : outcome (option bytes) :=
   else obind (slice_chk (pq_query_start p) (length (pq_string p)) (pq_string p)) (fun q => Ok (Some q)).
 
 (** ** [extensions::stream_body]: the window of a (ranged) streamed file
-    (since C09's repair b7d86a0: a start that is not inside the file is answered 416 before anything else,
+    (since C09's repair d675f8a: a start that is not inside the file is answered 416 before anything else,
     the end is clamped to the file) *)
 Definition stream_window (checked : bool) (range : option (N * N)) (file_len : N) : outcome (N * N * N) :=
   let start := match range with Some (s, _) => s | None => 0 end in
